@@ -287,6 +287,40 @@ func init() {
 				pair(wrap(&pnfttypes.MsgBurnPNFTRequest{DenomId: "d", Id: "1", Burner: o}), wrap(&pnfttypes.MsgDeleteDenomRequest{Id: "d", Remover: o}))
 			}
 		}
+		// controller absent / present but empty: two different messages on the wire (and two different stored documents)
+		// whose amino-JSON renderings coincide; at most one of them may be admissible (F32)
+		{
+			withCtl := func(c *didtypes.JSONStringOrStrings) *didtypes.MsgCreateDIDRequest {
+				d := *doc
+				d.Controller = c
+				vmID := ""
+				if len(d.Authentications) > 0 {
+					vmID = d.Authentications[0].GetVerificationMethodId()
+					if vm := d.Authentications[0].GetVerificationMethod(); vm != nil {
+						vmID = vm.Id
+					}
+				}
+				return &didtypes.MsgCreateDIDRequest{Did: idents[0].did, Document: &d, VerificationMethodId: vmID, Signature: bytes.Repeat([]byte{1}, 64), FromAddress: o}
+			}
+			a, b := withCtl(nil), withCtl(&didtypes.JSONStringOrStrings{})
+			la, lb := msgLabel(te, a), msgLabel(te, b)
+			for _, md := range modes {
+				ba, ra := e.signBytesOf(a, md.m, A)
+				bb, rb := e.signBytesOf(b, md.m, A)
+				ans := "pass"
+				switch {
+				case ra != "ok" || rb != "ok":
+					ans = "pass #not-signable-in-this-mode"
+				case a.ValidateBasic() != nil && b.ValidateBasic() != nil:
+					ans = "pass #neither-is-admissible"
+				case a.ValidateBasic() != nil || b.ValidateBasic() != nil:
+					ans = "pass #one-of-them-is-refused-by-stateless-validation"
+				case bytes.Equal(ba, bb):
+					ans = "fail #identical-sign-bytes"
+				}
+				s.Emit(fmt.Sprintf("mon.c14.pair.admissible mode=%s | %s | %s", md.name, la, lb), ans)
+			}
+		}
 		pair(aw0, dw)
 		pair(aw0, ar0)
 		pair(dw, ar0)
